@@ -212,12 +212,16 @@ func generate(seed uint64, tier string) ([]string, stats) {
 			streams = append(streams, fmt.Sprintf("stream %d %d %d %d", 1+r.Intn(2000), 1+r.Intn(300), 1+r.Intn(16), 2000+r.Intn(8000)))
 		}
 	}
+	streams = append(streams, "mstream 512 100 2 6000", "mstream 64 100 3 3000", "mstream 1 1 2 2000")
+	if tier == "thorough" {
+		streams = append(streams, "mstream 4096 1000 4 5000", "mstream 7 3 3 5000", "mstream 512 100 8 5000")
+	}
 	st.Streams = len(streams)
 	lines = append(lines, streams...)
 
 	st.Scripts = len(lines)
 	for _, l := range lines {
-		if strings.HasPrefix(l, "stream ") {
+		if strings.HasPrefix(l, "stream ") || strings.HasPrefix(l, "mstream ") {
 			continue
 		}
 		for _, op := range strings.Split(l, " ")[1:] {
